@@ -56,11 +56,11 @@ def reportLine (w : World) : String :=
     let c := w.conns.getD i default
     let parts := parts ++ c.frames.map fun m => s!"F:{i}:{kindStr m.kind}:{hexMasked m.data}"
     match c.ended with
-    | some how => if c.endReported then parts else parts ++ [s!"X:{i}:{how}"]
+    | some how => if c.endReported then parts else parts ++ [s!"X:{i}:{if c.wt then "closed" else how}"]
     | none => parts) parts
   let parts := parts ++ (List.range w.socks.size).map fun i =>
     let s := w.sock i
-    let trName := if (w.tr s.tr).isPolling then "polling" else "websocket"
+    let trName := (w.tr s.tr).name
     s!"S:{i}:{s.rs.name}:{trName}:{if s.upgrading then 1 else 0}{if s.upgraded then 1 else 0}"
   let reg := w.registry.mergeSort (· ≤ ·)
   let parts := parts ++ [s!"G:{showInts reg}:{reg.length}"]
@@ -106,6 +106,8 @@ def protoOf (tok : String) : Nat := if tok = "4" then 4 else 3
 def parseOp (toks : List String) : Option Op :=
   match toks with
   | ["hs", "polling", eio, b64, j] => some (.hsPolling (protoOf eio) (b64 = "1") (if j = "-" then none else some (unhex j)))
+  | ["hs", "webtransport", _, _, _] => some .hsWt
+  | ["wt", s] => if s = "-" then some .hsWt else some (.wtCandidate (sidOf s))
   | ["hs", "websocket", eio, b64, _] => some (.hsWebsocket (protoOf eio) (b64 = "1"))
   | ["poll", s] => some (.poll (sidOf s) [])
   | ["poll", s, ae] => some (.poll (sidOf s) (if ae = "-" ∨ ae = "initial" then [] else unhex ae))
@@ -140,6 +142,18 @@ def sesStep (st : SesState) (noSettle : Bool) (toks : List String) : SesState ×
     let w := if toks = ["shutdown"] then { w with evs := stableSortBy shutdownKey w.evs }
       else if toks.head? = some "adv" then { w with evs := stableSortBy advKey w.evs } else w
     ({ st with w := step w .observe }, reportLine w)
+
+/-- real-time scenarios (QUIC loopback): instants are not compared -/
+def zeroStamp (tok : String) : String :=
+  if tok.startsWith "E:" then
+    match tok.splitOn ":" with
+    | "E" :: _ :: rest => ":".intercalate ("E" :: "0" :: rest)
+    | _ => tok
+  else tok
+
+def sesqStep (st : SesState) (toks : List String) : SesState × String :=
+  let (st', out) := sesStep st false toks
+  (st', " ".intercalate ((out.splitOn " ").map zeroStamp))
 
 /-- the summary a window scenario ends with: independent of where inside its
     operation a parked goroutine stood -/
